@@ -205,9 +205,9 @@ def hitLe (a b : Hit) : Bool :=
 
 /-- `AlignTraps` of the model (kernel, suppression with stable sorts) and `dropSelfMatches`:
     the emitted hits and the returned ones -/
-def modelAlign (target working : Array Nat) (traps : List Trap) (k minLen minIdMilli : Int) (dropSelf : Bool) :
-    List Biogo.PalsKernel.KHit × List Hit :=
-  let em := Biogo.PalsKernel.emitted kernelCosts ⟨target, working⟩ traps k minLen (1000 - minIdMilli) 1000
+def modelAlign (target working : Array Nat) (traps : List Trap) (k minLen minIdMilli : Int) (dropSelf : Bool)
+    (split : Bool := false) : List Biogo.PalsKernel.KHit × List Hit :=
+  let em := Biogo.PalsKernel.emittedWith split kernelCosts ⟨target, working⟩ traps k minLen (1000 - minIdMilli) 1000
   let kept := suppress (fun l => l.mergeSort fun a b => a.abpos ≤ b.abpos) (fun l => l.mergeSort fun a b => a.aepos ≤ b.aepos)
     (em.map (·.h))
   let kept := if dropSelf then kept.filter (fun h => !(h.abpos == h.bbpos && h.aepos == h.bepos)) else kept
@@ -231,15 +231,16 @@ def kernelWhy (strand : Nat) (target working : Array Nat) (traps : List Trap) (k
 def trapWork (traps : List Trap) : Int :=
   traps.foldl (fun acc t => acc + (t.top - t.bottom + 1) * (t.right - t.left + 1 + 40)) 0
 
-/-- Recogniser of known finding **K6** (one alignment per row range inside a trapezoid).
-    `alignRecursion` splits a trapezoid only by rows: after the alignment through its middle row
-    it recurses into the rows above and below, so a second repeat whose query rows overlap those
-    of a reported alignment *in the same trapezoid* (another diagonal of a very wide trapezoid —
-    the short-seed regime, where the filter threshold is 1 and everything merges) is never
-    aligned.  A missed planted pair is K6 when, in one of its orientations, an implementation
-    trapezoid of that strand contains its diagonal and overlaps its query rows, and a reported hit
-    of that strand that does not recover it lies in the same trapezoid on overlapping query rows. -/
-def isK6 (self : Bool) (qLen : Nat) (traps : List Trap) (hits : List HitObs) (p : Plant) : Bool :=
+/-- Structural part of the recogniser of known finding **K6** (one alignment per row range inside a
+    trapezoid).  `alignRecursion` splits a trapezoid only by rows: after the alignment through its
+    middle row it recurses into the rows above and below, so a second repeat whose query rows
+    overlap those of a reported alignment *in the same trapezoid* (another diagonal of a very wide
+    trapezoid — the short-seed regime, where the filter threshold is 1 and everything merges) is
+    never aligned.  A missed planted pair has the shape of K6 when, in one of its orientations, an
+    implementation trapezoid of that strand contains its diagonal and overlaps its query rows, and
+    a reported hit of that strand that does not recover it lies in the same trapezoid on
+    overlapping query rows. -/
+def k6Shape (self : Bool) (qLen : Nat) (traps : List Trap) (hits : List HitObs) (p : Plant) : Bool :=
   let strand : Nat := if p.comp then 1 else 0
   let hs := hits.filter fun o => o.strand == strand && !recovers self qLen p o
   let bsD : Int := if p.comp then (qLen : Int) - (p.bPos + p.bLen : Nat) else p.bPos
@@ -255,6 +256,28 @@ def isK6 (self : Bool) (qLen : Nat) (traps : List Trap) (hits : List HitObs) (p 
         decide (t.left - 12 ≤ hd) && decide (hd ≤ t.right + 12) &&
         decide (t.bottom ≤ o.h.bepos) && decide (o.h.bbpos ≤ t.top) &&
         decide (o.h.bbpos < be) && decide (bs < o.h.bepos)
+
+/-- **Recogniser of K6**, specific to the root cause.  A missed planted pair is K6 when
+    (1) it has the shape above (`k6Shape`);
+    (2) the kernel model with the recursion of the source (`emittedWith false`, the model the
+        correspondence compares hit by hit with the implementation), run on the trapezoids the
+        implementation's aligner was given, misses the pair as well — so the miss is what the
+        row-wise recursion does on these trapezoids, not a departure of the implementation from it;
+    (3) the same model with the one change "also recurse into the diagonals left and right of the
+        band of a found alignment" (`emittedWith true`), everything else equal — same trapezoids,
+        same traces, same acceptance test, same suppression — recovers it.
+    Any other recall failure (pair not in a trapezoid, kernel losing an alignment the model finds,
+    a pair the diagonal split does not bring back) stays `fail`.  The model is run here whatever the
+    work bound of the correspondence (only on workloads with a missed demanded pair). -/
+def isK6 (self : Bool) (qLen : Nat) (target working : Array Nat) (traps : List Trap) (k minLen minIdMilli : Int)
+    (hits : List HitObs) (p : Plant) : Bool :=
+  let strand : Nat := if p.comp then 1 else 0
+  k6Shape self qLen traps hits p &&
+    let dropSelf := self && !p.comp
+    let asObs := fun (h : Hit) => ({ strand := strand, h := h, e12 := none, lowDiag := 0, highDiag := 0 } : HitObs)
+    let rowWise := (modelAlign target working traps k minLen minIdMilli dropSelf false).2
+    !rowWise.any (fun h => recovers self qLen p (asObs h)) &&
+      (modelAlign target working traps k minLen minIdMilli dropSelf true).2.any (fun h => recovers self qLen p (asObs h))
 
 def handleCase (self : Bool) (minLen minIdMilli maxMemMB : Int) (plants : List Plant) (target query : Array Nat)
     (obs : String) (givenTraps : Option (List Trap) := none) : Verdict :=
@@ -324,11 +347,12 @@ def handleCase (self : Bool) (minLen minIdMilli maxMemMB : Int) (plants : List P
         let missed := plants.filter fun p => demanded self target query working1 n e p && !hits.any (recovers self query.size p)
         let showPlant := fun (p : Plant) => s!"{p.aPos}:{p.aLen}:{p.bPos}:{p.bLen}:{if p.comp then 1 else 0}:{p.cls}"
         let k6 := fun (p : Plant) => match trapsObs with
-          | some (t0, t1) => isK6 self query.size (if p.comp then t1 else t0) hits p
+          | some (t0, t1) =>
+            isK6 self query.size target (if p.comp then working1 else query) (if p.comp then t1 else t0) k minLen minIdMilli hits p
           | none => false
         match missed.find? (fun p => !k6 p), missed with
         | some p, _ => fail s!"planted-repeat-not-recovered {showPlant p}" tags
-        | none, p :: _ => known "K6" s!"planted-repeat-shares-query-rows-with-a-reported-hit-in-one-trapezoid {showPlant p}" tags
+        | none, p :: _ => known "K6" s!"planted-repeat-shares-query-rows-with-a-reported-hit-in-one-trapezoid;row-wise-model-misses-it;diagonal-split-recovers-it {showPlant p}" tags
         | none, [] =>
           match hits.findSome? (modelWhy minLen minIdMilli) with
           | some w => diff w tags
